@@ -4,3 +4,5 @@ From PV Require Import C07.C07_SPSC_Model C07.C07_MPMC_Model C07.C07_Batch_Model
 From PV Require Export C07.C07_SPSC_Proofs.
 From PV Require Export C07.C07_MPMC_Proofs.
 From PV Require Export C07.C07_Chan_Proofs.
+From PV Require Export C07.C07_Chan_Inv.
+From PV Require Export C07.C07_Chan_InvS.
